@@ -93,15 +93,24 @@ def file_entry(tag, path, data, hashes):
 
 
 def compress(fmt, data):
+    """Every other content (by its hash) is compressed with settings that differ
+    from what gemato itself writes - another tool's or an older release's output:
+    the same content gives other bytes, often of the same length."""
     if fmt in (None, '', 'plain'):
         return data
+    alt = bool(hashlib.sha1(data).digest()[0] & 1)
     if fmt == 'gz':
-        return gzip.compress(data, mtime=0)
+        return gzip.compress(data, mtime=1234567890 if alt else 0)
     if fmt == 'bz2':
-        return bz2.compress(data)
+        return bz2.compress(data, 1 if alt else 9)
     if fmt == 'lzma':
+        if alt:
+            return lzma.compress(data, format=lzma.FORMAT_ALONE, preset=1)
         return lzma.compress(data, format=lzma.FORMAT_ALONE)
     if fmt == 'xz':
+        if alt:
+            return lzma.compress(data, format=lzma.FORMAT_XZ, preset=1,
+                                 check=lzma.CHECK_CRC32)
         return lzma.compress(data, format=lzma.FORMAT_XZ)
     raise ValueError(fmt)
 
